@@ -25,6 +25,9 @@ struct SimClient {
 	long     sw_taken[SW_KINDS];  // switch points at which this client was preempted
 	long     sw_seen[SW_KINDS];
 	long     blocked_count;
+	int      gate_on;          // this client stops at sink gates (executor op "gate")
+	int      gate_wait;        // 1 while parked at a gate
+	long     gates_passed, gates_joint;
 };
 
 extern "C" {
@@ -45,6 +48,7 @@ extern "C" {
 	SimClient *sim_client(int i);
 	long  sim_inside_preemptions(void);
 	void  sim_flag_set(int i, long value);     // hand a value to other clients (invisible to TSan)
+	void  sim_gate(void);                      // rendezvous before a sink call: wait until every other runnable client is at a gate too
 	long  sim_flag_wait(int i);                // wait for it, yielding the baton; -1 if nobody can set it        // preemptions taken while the preempted client was inside an API call and another client too
 
 	// --- event log -----------------------------------------------------------------
